@@ -1055,6 +1055,14 @@ def judge(case, obs, ref):
                  "a TankLevelCondition reported a backtrack >= the step (presolve moved the clock from %s back to %s <= prev %s) and run_sim "
                  "raised 'Simulation already solved this timestep' although no step failed"
                  % next((p[0], p[3], p[1]) for p in obs["pres"] if not p[2] and not (p[1] < p[3])))]
+    # a "solver failure" whose message is a Python calling error is not a verdict of the solver: the step was never attempted
+    texts = list(obs["warnings"]) + ([obs["exc"][1]] if obs["exc"] else [])
+    for tx in texts:
+        if "did not converge" in tx and any(n in tx for n in ("values to unpack", "unexpected keyword argument", "positional argument",
+                                                               "has no attribute", "is not callable", "is not subscriptable")):
+            out.append(("solver-call-programming-error",
+                        "the reported solver failure is a Python calling error inside _solver_helper, not a verdict of the solver: %s" % tx[:200]))
+            break
     if got != exp:
         if exp == "finished":
             out.append(("clean-run-%s" % got, "no step failed but run_sim ended with %s (%s)" % (got, tag)))
